@@ -97,8 +97,44 @@ func (m *Model) feedLoopFn() (*ssa.Function, ssa.CallInstruction, ssa.CallInstru
 		if pull != nil && cb != nil {
 			return fn, pull, cb
 		}
+		// the delivery may sit in a helper the loop hands each event to (`feed.deliver(event)`): the
+		// loop's call of that helper then stands for the callback
+		if pull != nil {
+			m.eachCall(fn, func(c ssa.CallInstruction) {
+				if h := c.Common().StaticCallee(); h != nil && m.inPkg(h) && inCycle(c.Block()) && cb == nil {
+					if m.innerCallback(h) != nil {
+						cb = c
+					}
+				}
+			})
+			if cb != nil {
+				return fn, pull, cb
+			}
+		}
 	}
 	return nil, nil, nil
+}
+
+// innerCallback: the call of a function-typed field or parameter (the feed's callback) that h
+// performs on every path, if any.
+func (m *Model) innerCallback(h *ssa.Function) ssa.CallInstruction {
+	var inner ssa.CallInstruction
+	m.eachCall(h, func(c ssa.CallInstruction) {
+		if c.Common().StaticCallee() == nil && !c.Common().IsInvoke() {
+			if _, isB := c.Common().Value.(*ssa.Builtin); !isB {
+				if _, isCall := c.(*ssa.Call); isCall {
+					inner = c
+				}
+			}
+		}
+	})
+	if inner == nil {
+		return nil
+	}
+	if ok, _ := mustPassThrough(h, []*ssa.BasicBlock{inner.Block()}, nil); !ok {
+		return nil
+	}
+	return inner
 }
 
 func (m *Model) ruleDONE(r *Results) {
@@ -418,7 +454,11 @@ func isIntConst(v ssa.Value, n int64) bool {
 
 // modeTest: is the If a comparison of the open-mode parameter with constant n? returns the equal edge.
 func (m *Model) modeTest(iff *ssa.If, n int64) (*ssa.BasicBlock, bool) {
-	cd := condOf(iff)
+	return m.modeTestCond(condOf(iff), n)
+}
+
+// modeTestCond: the same for a condition that reaches the If through a phi (`a && mode == X`).
+func (m *Model) modeTestCond(cd cond, n int64) (*ssa.BasicBlock, bool) {
 	eq, ok := cd.equalEdge()
 	if !ok {
 		return nil, false
@@ -533,11 +573,11 @@ func (m *Model) ruleOPENMODE(r *Results) {
 		if m.methodOwner(g) == reg && reg != nil {
 			continue
 		}
-		for _, iff := range allIfs(g) {
-			if eq, ok := m.modeTest(iff, reopen); ok && errLoadedIn(eq, "ErrNotExist") {
+		for _, d := range m.decisions(g, topFrame(g)) {
+			if eq, ok := m.modeTestCond(d.C, reopen); ok && errLoadedIn(eq, "ErrNotExist") {
 				okReopen = true
 			}
-			if eq, ok := m.modeTest(iff, createNew); ok && errLoadedIn(eq, "ErrExist") {
+			if eq, ok := m.modeTestCond(d.C, createNew); ok && errLoadedIn(eq, "ErrExist") {
 				okCreate = true
 			}
 		}
@@ -639,40 +679,41 @@ func (m *Model) ruleOPENMODE(r *Results) {
 		rearmFr = rearmFr.inline(rearm, callee)
 		rearmFn, rearm = callee, inner
 	}
-	// versCutIn cuts, in function g (seen through frame fr), the edges taken when the schema version
-	// is 0 (equalSide) or is not 0 (!equalSide). The condition may be the comparison itself, its
-	// negation, or a flag that was assigned from it (in g or in a caller that passes it down).
-	// With exactOnly the condition must be the predicate on every alternative (no "initially false").
-	versCutIn := func(g *ssa.Function, fr *frame, equalSide, exactOnly bool) *cut {
-		c := newCut()
-		te := m.newTermEval()
-		for _, iff := range allIfs(g) {
-			pol, exact := versPred(te.term(iff.Cond, iff, fr))
-			if pol == 0 || exactOnly && !exact {
-				continue
-			}
-			// pol=+1: true edge ⇒ version == 0; if exact, false edge ⇒ version != 0
-			// pol=-1: true edge ⇒ version != 0; if exact, false edge ⇒ version == 0
-			trueIsEqual := pol == 1
-			for i, s := range iff.Block().Succs {
-				edgeEqual := trueIsEqual == (i == 0)
-				if edgeEqual != equalSide {
-					continue
-				}
-				if !exact && !edgeEqual {
-					continue // a flag that may still hold its initial value proves "new" only
-				}
-				c.cutEdge(iff.Block(), s)
-			}
-		}
-		return c
-	}
+	versCutIn := m.versCutIn
 	versCut := func(equalSide bool) *cut { return versCutIn(fn, topFrame(fn), equalSide, false) }
 	if initCall == nil {
 		r.undecided(rule, name+" / schema initialisation", m.pos(fn.Pos()), "no call reaching the schema script")
 	} else {
+		// the version test may sit in a helper together with the initialisation: descend to the
+		// innermost call that still reaches the schema script
+		initFn, initFr := fn, topFrame(fn)
+		reachesSchema := func(f *ssa.Function) bool {
+			for _, s := range m.Sites {
+				if s.IsSchema && m.reachableLocal(f)[s.Fn] {
+					return true
+				}
+			}
+			return false
+		}
+		for depth := 0; depth < 2; depth++ {
+			callee := initCall.Common().StaticCallee()
+			var inner ssa.CallInstruction
+			m.eachCall(callee, func(c2 ssa.CallInstruction) {
+				if t := c2.Common().StaticCallee(); t != nil && m.inPkg(t) && reachesSchema(t) {
+					inner = c2
+				}
+			})
+			if inner == nil {
+				break
+			}
+			initFr = initFr.inline(initCall, callee)
+			initFn, initCall = callee, inner
+		}
 		c := versCut(true)
-		r.check(len(c.edges) > 0 && !entryReach(fn, c)[initCall.Block().Index], rule, name+" / schema initialised only for a new database", m.instrPos(initCall), "the schema script runs only when user_version is 0", "the schema script can run on a database that already has a schema (bucket UUID, collections and documents would be re-created or the open would fail)")
+		if initFn != fn {
+			c = versCutIn(initFn, initFr, true, false)
+		}
+		r.check(len(c.edges) > 0 && !entryReach(initFn, c)[initCall.Block().Index], rule, name+" / schema initialised only for a new database", m.instrPos(initCall), "the schema script runs only when user_version is 0", "the schema script can run on a database that already has a schema (bucket UUID, collections and documents would be re-created or the open would fail)")
 	}
 	if rearm == nil {
 		r.bad(rule, name+" / expiry re-armed on reopen", m.pos(fn.Pos()), "the open function never schedules the pending expirations of an existing bucket: documents whose TTL was set before the restart never expire")
@@ -761,6 +802,36 @@ func (m *Model) ruleVIEW(r *Results) {
 		}
 	}
 	name := m.declName(updFn)
+	// the whole update may have been moved out of the closure into a method it calls: work in the
+	// innermost function that still leads to all of the statements (the key keeps the closure's name)
+	for depth := 0; depth < 3 && del != nil && sel != nil && ins != nil; depth++ {
+		var only ssa.CallInstruction
+		n := 0
+		direct := false
+		for _, s := range []*SQLSite{del, sel, ins, upd} {
+			if s.Fn == updFn {
+				direct = true
+			}
+		}
+		if direct {
+			break
+		}
+		m.eachCall(updFn, func(c ssa.CallInstruction) {
+			callee := c.Common().StaticCallee()
+			if callee == nil || !m.inPkg(callee) {
+				return
+			}
+			reach := m.reachableLocal(callee)
+			if reach[del.Fn] && reach[sel.Fn] && reach[ins.Fn] && reach[upd.Fn] {
+				only = c
+				n++
+			}
+		})
+		if n != 1 {
+			break
+		}
+		updFn = only.Common().StaticCallee()
+	}
 	// the instruction of the closure that performs (or leads to) a site
 	anchor := func(s *SQLSite) ssa.Instruction {
 		if s.Fn == updFn {
@@ -1898,3 +1969,32 @@ func versPred(t *Term) (pol int, exact bool) {
 	}
 	return pol, exact
 }
+
+// versCutIn cuts, in function g (seen through frame fr), the edges taken when the schema version
+// is 0 (equalSide) or is not 0 (!equalSide). The condition may be the comparison itself, its
+// negation, or a flag that was assigned from it (in g or in a caller that passes it down).
+// With exactOnly the condition must be the predicate on every alternative (no "initially false").
+func (m *Model) versCutIn(g *ssa.Function, fr *frame, equalSide, exactOnly bool) *cut {
+		c := newCut()
+		te := m.newTermEval()
+		for _, iff := range allIfs(g) {
+			pol, exact := versPred(te.term(iff.Cond, iff, fr))
+			if pol == 0 || exactOnly && !exact {
+				continue
+			}
+			// pol=+1: true edge ⇒ version == 0; if exact, false edge ⇒ version != 0
+			// pol=-1: true edge ⇒ version != 0; if exact, false edge ⇒ version == 0
+			trueIsEqual := pol == 1
+			for i, s := range iff.Block().Succs {
+				edgeEqual := trueIsEqual == (i == 0)
+				if edgeEqual != equalSide {
+					continue
+				}
+				if !exact && !edgeEqual {
+					continue // a flag that may still hold its initial value proves "new" only
+				}
+				c.cutEdge(iff.Block(), s)
+			}
+		}
+		return c
+	}
